@@ -374,8 +374,8 @@ Proof.
     + reflexivity.
   - destruct G2 as (w2 & Hw2 & ->).
     assert (Hk : reads (k <- m_kw ext_tab ;; v0 <- (match k with Some v0 => ret v0 | None => mtok t_false true ;;; ret ext_false end) ;; mtok t_rbrack true ;;; ret v0)
-                   ((name ++ w2) ++ t3) v [] okS).
-    { destruct Hname as [Hin | [-> ->]].
+                   (name ++ w2 ++ t3) v [] okS).
+    { rewrite app_assoc. destruct Hname as [Hin | [-> ->]].
       - assert (Hf : kw_first ext_tab name v = true).
         { cbn in Hin. destruct Hin as [E|[E|[E|[]]]]; inversion E; subst; reflexivity. }
         eapply reads_eff.
@@ -395,10 +395,112 @@ Proof.
     eapply reads_eff.
     + skipkw t_minimize t_external. skipkw t_project t_external. skipkw t_output t_external.
       eapply (reads_bind _ _ (t_external ++ w0) _ _ _ _ _ _ okS); [apply (reads_tok t_external w0 false Hw0) | cbv beta iota | ].
-      * rb (r_atom a ta Ha Ga); [ | intros tail _; now apply dot_pun].
+      * rb (r_atom a ta Ha Ga); [ | intros tail _; rewrite <- ?app_assoc; now apply dot_pun].
         rb (r_tok _ _ true Gd); [ | intros tail _; rewrite <- !app_assoc; apply (tok_nws t_lbrack); [exact G1 | discriminate | reflexivity]].
         rb (r_tok _ _ false G1); [ | intros tail _; rewrite <- !app_assoc; destruct Hname as [Hin | [_ ->]]; [cbn in Hin; destruct Hin as [E|[E|[E|[]]]]; inversion E; subst; reflexivity | reflexivity]].
-        eapply (reads_bind _ _ ((name ++ w2) ++ t3) [] _ _ _ _ _ okS); [exact Hk | apply (r_emit_ret _ true okS) | intros tail Ht; rewrite app_nil_l; exact Ht].
+        eapply reads_eq; [eapply (reads_bind _ _ (name ++ w2 ++ t3) [] _ _ _ _ _ okS); [exact Hk | apply (r_emit_ret _ true okS) | intros tail Ht; rewrite app_nil_l; exact Ht] | rewrite app_nil_r, <- ?app_assoc; reflexivity].
       * intros tail _. rewrite <- !app_assoc. apply (atom_pun_first a ta _ Ha Ga).
+    + reflexivity.
+Qed.
+
+Lemma r_assume inc l txt : stmt_ok (CAssume l) -> G_stmt (CAssume l) txt -> reads (m_directive inc) txt true [CAssume l] okS.
+Proof.
+  intros Hl (t0 & tb & td & (w0 & Hw0 & ->) & Gd & -> & Hb). unfold m_directive. rewrite <- !app_assoc.
+  destruct Hb as [[-> ->] | (t1 & t2 & t3 & G1 & G2 & G3 & ->)].
+  - eapply reads_eff.
+    + skipkw t_minimize t_assume. skipkw t_project t_assume. skipkw t_output t_assume. skipkw t_external t_assume.
+      eapply (reads_bind _ _ (t_assume ++ w0) _ _ _ _ _ _ okS); [apply (reads_tok t_assume w0 false Hw0) | cbv beta iota | ].
+      * cbn [app]. rb0 (reads_tok_absent 123 []); [discriminate | | intros tail _; cbv beta; rewrite (dot_hd td tail Gd); discriminate].
+        eapply (reads_bind0 _ _ _ [] _ _ _ _ okS); [apply (reads_ret _ (fun _ => True)) | apply (r_dot_emit _ true td Gd) | intros; exact I].
+      * intros tail Ht. cbn [app]. apply (tok_nws t_dot); [exact Gd | discriminate | reflexivity].
+    + reflexivity.
+  - eapply reads_eff.
+    + skipkw t_minimize t_assume. skipkw t_project t_assume. skipkw t_output t_assume. skipkw t_external t_assume.
+      eapply (reads_bind _ _ (t_assume ++ w0) _ _ _ _ _ _ okS); [apply (reads_tok t_assume w0 false Hw0) | cbv beta iota | ].
+      * rewrite <- !app_assoc. rb (r_tok _ _ false G1).
+        -- rewrite (app_assoc t2 t3 td).
+           eapply (reads_bind _ _ (t2 ++ t3) _ _ _ _ _ _ okS); [ | apply (r_dot_emit _ true td Gd) | intros tail _; apply (tok_nws t_dot); [exact Gd | discriminate | reflexivity]].
+           eapply reads_eff; [eapply reads_bind; [apply (r_lits l t2 Hl G2) | cbv beta | ] | ].
+           ++ eapply reads_eq; [eapply reads_bind; [apply (r_tok _ _ true G3) | apply reads_ret | intros tail Ht; rewrite app_nil_l; exact Ht] | now rewrite app_nil_r].
+           ++ intros tail Ht. split; [apply (tok_pun t_rbrace); [exact G3 | discriminate | repeat split; discriminate] | rewrite (tok_hd t_rbrace t3 tail G3) by discriminate; discriminate].
+           ++ reflexivity.
+        -- intros tail Ht. rewrite <- !app_assoc. destruct l as [|x r].
+           ++ simpl in G2. subst t2. cbn [app]. apply (tok_nws t_rbrace); [exact G3 | discriminate | reflexivity].
+           ++ unfold nws. apply lower_nws. apply (lits_hd (x :: r)); [exact Hl | exact G2 | discriminate].
+      * intros tail Ht. rewrite <- !app_assoc. apply (tok_nws t_lbrace); [exact G1 | discriminate | reflexivity].
+    + reflexivity.
+Qed.
+
+Lemma r_edge inc x y c txt : stmt_ok (CEdge x y c) -> G_stmt (CEdge x y c) txt -> reads (m_directive inc) txt true [CEdge x y c] okS.
+Proof.
+  intros (Hx & Hy & Hc) (t0 & t1 & tx & t2 & ty & t3 & tc & td & (w0 & Hw0 & ->) & G1 & Gx & G2 & Gy & G3 & Gc & Gd & ->).
+  unfold m_directive. rewrite <- !app_assoc.
+  eapply reads_eff.
+  - skipkw t_minimize t_edge. skipkw t_project t_edge. skipkw t_output t_edge. skipkw t_external t_edge. skipkw t_assume t_edge. skipkw t_heuristic t_edge.
+    eapply (reads_bind _ _ (t_edge ++ w0) _ _ _ _ _ _ okS); [apply (reads_tok t_edge w0 false Hw0) | cbv beta iota | ].
+    + rb (r_tok _ _ true G1); [ | intros tail _; rewrite <- ?app_assoc; apply (int_first x tx _ Gx)].
+      rb (r_int x tx Hx Gx); [ | intros tail _; rewrite <- ?app_assoc; apply (tok_pun t_comma); [exact G2 | discriminate | repeat split; discriminate]].
+      rb (r_tok _ _ true G2); [ | intros tail _; rewrite <- ?app_assoc; apply (int_first y ty _ Gy)].
+      rb (r_int y ty Hy Gy); [ | intros tail _; rewrite <- ?app_assoc; apply (tok_pun t_rpar); [exact G3 | discriminate | repeat split; discriminate]].
+      rb (r_tok _ _ true G3); [ | intros tail _; apply (pun_nws _ (proj1 (cond_first c tc td tail Hc Gc Gd)))].
+      apply (r_cond_dot c tc td (fun c => mtok t_dot true ;;; emit (CEdge x y c) ;;; ret true)); try assumption. apply (r_dot_emit _ true td Gd).
+    + intros tail _. rewrite <- ?app_assoc. apply (tok_nws t_lpar); [exact G1 | discriminate | reflexivity].
+  - reflexivity.
+Qed.
+
+Lemma r_heuristic inc a t b p c txt : stmt_ok (CHeuristic a t b p c) -> G_stmt (CHeuristic a t b p c) txt ->
+  reads (m_directive inc) txt true [CHeuristic a t b p c] okS.
+Proof.
+  intros (Ha & Ht & Hb & Hp & Hc) (t0 & ta & tc & td & t1 & tb & tp & t2 & name & t3 & t4 &
+    (w0 & Hw0 & ->) & Ga & Gc & Gd & G1 & Gb & G2 & Hin & (w3 & Hw3 & ->) & G4 & -> & Hopt).
+  unfold m_directive. rewrite <- !app_assoc.
+  assert (Hpi : in_int p = true) by (unfold in_int, INT_MIN, INT_MAX in *; lia).
+  assert (Hf : kw_first heu_tab name t = true).
+  { cbn in Hin. destruct Hin as [E|[E|[E|[E|[E|[E|[]]]]]]]; inversion E; subst; reflexivity. }
+  assert (Hname : nws ((name ++ w3) ++ t4)).
+  { cbn in Hin. destruct Hin as [E|[E|[E|[E|[E|[E|[]]]]]]]; inversion E; subst; reflexivity. }
+  (* the part after the bias: [@p] , modifier ] *)
+  assert (Hrest : forall pv, pv = p -> reads (mtok t_comma true ;;; k <- m_kw heu_tab ;;
+                      match k with
+                      | Some h => skipws ;;; mtok t_rbrack true ;;; emit (CHeuristic a h b pv c) ;;; ret true
+                      | None => fail
+                      end) (t2 ++ name ++ w3 ++ t4) true [CHeuristic a t b p c] okS).
+  { intros pv ->. eapply reads_eff.
+    - rb (r_tok _ _ true G2); [ | intros tail _; rewrite <- ?app_assoc; rewrite <- app_assoc in Hname; unfold nws in *; destruct name; [discriminate Hf | exact Hname]].
+      rewrite (app_assoc name w3 t4).
+      rb (r_kw heu_tab name t w3 Hf Hw3); [ | intros tail _; apply (tok_nws t_rbrack); [exact G4 | discriminate | reflexivity]].
+      rb0 (skipws_reads [] eq_refl); [ | intros tail _; apply (tok_nws t_rbrack); [exact G4 | discriminate | reflexivity]].
+      eapply reads_eq; [rb (r_tok _ _ true G4); [apply (r_emit_ret _ true okS) | intros tail Ht0; rewrite app_nil_l; exact (okS_nws _ Ht0)] | now rewrite app_nil_r].
+    - reflexivity. }
+  assert (Hcomma : forall l, hd 0 (t2 ++ l) = 44) by (intros l; now rewrite (tok_hd t_comma t2 l G2) by discriminate).
+  destruct Hopt as [[-> ->] | (u1 & u2 & U1 & U2 & ->)].
+  - eapply reads_eff.
+    + skipkw t_minimize t_heuristic. skipkw t_project t_heuristic. skipkw t_output t_heuristic. skipkw t_external t_heuristic. skipkw t_assume t_heuristic.
+      eapply (reads_bind _ _ (t_heuristic ++ w0) _ _ _ _ _ _ okS); [apply (reads_tok t_heuristic w0 false Hw0) | cbv beta iota | ].
+      * rb (r_atom a ta Ha Ga); [ | intros tail _; rewrite <- ?app_assoc; rewrite (app_assoc tc td); apply (cond_first c tc td _ Hc Gc Gd)].
+        rb (r_cond c tc Hc Gc); [ | intros tail _; rewrite <- ?app_assoc; split; [now apply dot_pun | rewrite (dot_hd td _ Gd); split; discriminate]].
+        rb (r_tok _ _ true Gd); [ | intros tail _; rewrite <- ?app_assoc; apply (tok_nws t_lbrack); [exact G1 | discriminate | reflexivity]].
+        rb (r_tok _ _ true G1); [ | intros tail _; rewrite <- ?app_assoc; apply (int_first b tb _ Gb)].
+        rb (r_int b tb Hb Gb); [ | intros tail _; rewrite <- ?app_assoc; cbn [app]; apply (tok_pun t_comma); [exact G2 | discriminate | repeat split; discriminate]].
+        cbn [app]. rb0 (reads_tok_absent 64 []); [discriminate | | intros tail _; cbv beta; rewrite <- ?app_assoc; rewrite Hcomma; discriminate].
+        rb0 (reads_ret 0 (fun _ => True)); [ | intros; exact I].
+        apply (Hrest 0 eq_refl).
+      * intros tail _. rewrite <- ?app_assoc. apply (atom_pun_first a ta _ Ha Ga).
+    + reflexivity.
+  - eapply reads_eff.
+    + skipkw t_minimize t_heuristic. skipkw t_project t_heuristic. skipkw t_output t_heuristic. skipkw t_external t_heuristic. skipkw t_assume t_heuristic.
+      eapply (reads_bind _ _ (t_heuristic ++ w0) _ _ _ _ _ _ okS); [apply (reads_tok t_heuristic w0 false Hw0) | cbv beta iota | ].
+      * rb (r_atom a ta Ha Ga); [ | intros tail _; rewrite <- ?app_assoc; rewrite (app_assoc tc td); apply (cond_first c tc td _ Hc Gc Gd)].
+        rb (r_cond c tc Hc Gc); [ | intros tail _; rewrite <- ?app_assoc; split; [now apply dot_pun | rewrite (dot_hd td _ Gd); split; discriminate]].
+        rb (r_tok _ _ true Gd); [ | intros tail _; rewrite <- ?app_assoc; apply (tok_nws t_lbrack); [exact G1 | discriminate | reflexivity]].
+        rb (r_tok _ _ true G1); [ | intros tail _; rewrite <- ?app_assoc; apply (int_first b tb _ Gb)].
+        rb (r_int b tb Hb Gb); [ | intros tail _; rewrite <- ?app_assoc; apply (tok_pun t_at); [exact U1 | discriminate | repeat split; discriminate]].
+        rewrite <- ?app_assoc.
+        rb (r_tok _ _ false U1); [ | intros tail _; rewrite <- ?app_assoc; apply (int_first p u2 _ U2)].
+        eapply (reads_bind _ _ u2 _ p _ _ _ _ okS); [ | apply (Hrest p eq_refl) | intros tail _; rewrite <- ?app_assoc; apply (tok_pun t_comma); [exact G2 | discriminate | repeat split; discriminate]].
+        eapply reads_eff; [eapply reads_eq; [eapply reads_bind; [apply (r_int p u2 Hpi U2) | cbv beta | intros tail Ht0; rewrite app_nil_l; exact Ht0] | now rewrite app_nil_r] | reflexivity].
+        assert (0 <=? p = true) as -> by lia.
+        eapply (reads_bind0 _ _ [] tt); [apply (reads_require pun) | apply reads_ret | intros tail Ht0; exact Ht0].
+      * intros tail _. rewrite <- ?app_assoc. apply (atom_pun_first a ta _ Ha Ga).
     + reflexivity.
 Qed.
